@@ -256,6 +256,13 @@ func (m *Muxer) validate() error {
 			return fmt.Errorf("%w: non-animated image must have exactly 1 frame", ErrMuxValidation)
 		}
 	}
+	// Metadata set through SetICCProfile/SetEXIF/SetXMP is subject to the same
+	// limit as AddChunk (the demuxer refuses larger chunks).
+	for _, md := range [][]byte{m.iccData, m.exifData, m.xmpData} {
+		if len(md) > maxMetadataSize {
+			return fmt.Errorf("%w: metadata chunk too large (%d bytes, max %d)", ErrMuxValidation, len(md), maxMetadataSize)
+		}
+	}
 	// Check that frame dimensions fit within the canvas.
 	canvasW, canvasH := m.canvasSize()
 	// The VP8X canvas fields hold width-1 and height-1 in 24 bits, and the
